@@ -153,6 +153,9 @@ func c15GoHeapRun(c c15GCase, rec *vh.Recorder) error {
 	cmd.Stdout, cmd.Stderr = &out, &errb
 	runErr := cmd.Run()
 	stderr := errb.String()
+	if strings.Contains(stderr, "out of memory") || strings.Contains(stderr, "cannot allocate memory") {
+		return vh.Infraf("helper ran out of memory: %q", strTail(stderr, 300))
+	}
 	if strings.Contains(stderr, "fatal error:") || strings.Contains(stderr, "runtime: pointer") || strings.Contains(stderr, "found bad pointer") {
 		first := stderr
 		if i := strings.Index(first, "fatal error:"); i >= 0 {
